@@ -405,11 +405,6 @@ class BioConsert(RankAggAlgorithm, PairwiseBasedAlgorithm):
         :return: a 2D ndarray with nb_elements columns, res[i][j] = bucket id of element j in departure ranking i
         """
 
-        if unify and not dataset.is_complete:
-            dataset_to_consider = dataset.unified_dataset()
-        else:
-            dataset_to_consider = dataset
-
         # if user set some starting algorithms,
         # the departure rankings are the consensus computed by the selected algorithms
 
@@ -419,32 +414,40 @@ class BioConsert(RankAggAlgorithm, PairwiseBasedAlgorithm):
         if len(self._starting_algorithms) > 0:
             # to get one consensus ranking for each algorithm. Note that consensus rankings are complete
             # and do not need to be unified
-            rankings_cons = [alg.compute_consensus_rankings(dataset, scoring_scheme, True).consensus_rankings[0]
-                             for alg in self._starting_algorithms]
-            return BioConsert()._departure_rankings(Dataset(rankings_cons), scoring_scheme, False, False)
-
+            rankings_to_consider: List[Ranking] = [
+                alg.compute_consensus_rankings(dataset, scoring_scheme, True).consensus_rankings[0]
+                for alg in self._starting_algorithms]
+            all_tied_as_well = False
+        elif unify and not dataset.is_complete:
+            rankings_to_consider = dataset.unified_rankings()
         else:
+            rankings_to_consider = dataset.rankings
 
-            # get for each departure ranking the initial value of kemeny score with the input Dataset
-            bucket_ids: ndarray = dataset_to_consider.get_bucket_ids().transpose()
+        # bucket id of each element in each departure ranking. The elements are numbered with the int ids of
+        # the input dataset, as the cost matrix and the final decoding of the consensus use these ids
+        mapping_elem_id: Dict[Element, int] = dataset.mapping_elem_id
+        bucket_ids: ndarray = zeros((len(rankings_to_consider), dataset.nb_elements), dtype=np_int32)
+        for id_ranking, ranking in enumerate(rankings_to_consider):
+            for id_bucket, bucket in enumerate(ranking):
+                for element in bucket:
+                    bucket_ids[id_ranking][mapping_elem_id[element]] = id_bucket
 
-            # to be sure that all the departure rankings are different, use a dct
-            distinct_rankings: Set[Tuple[int, ...]] = set()
-            distinct_rankings_ids: List[int] = []
+        # to be sure that all the departure rankings are different, use a dct
+        distinct_rankings: Set[Tuple[int, ...]] = set()
+        distinct_rankings_ids: List[int] = []
 
-            # select only distinct input rankings as starters for BioConsert
-            for id_ranking, ranking in enumerate(dataset_to_consider.rankings):
-                ranking_tuple = tuple(bucket_ids[id_ranking])
-                if ranking_tuple not in distinct_rankings:
-                    distinct_rankings.add(ranking_tuple)
-                    distinct_rankings_ids.append(id_ranking)
-                    # the initial kemeny score is computed for the target ranking
+        # select only distinct rankings as starters for BioConsert
+        for id_ranking in range(len(rankings_to_consider)):
+            ranking_tuple = tuple(bucket_ids[id_ranking])
+            if ranking_tuple not in distinct_rankings:
+                distinct_rankings.add(ranking_tuple)
+                distinct_rankings_ids.append(id_ranking)
 
-            rankings_departure = bucket_ids[asarray(distinct_rankings_ids)]
-            if all_tied_as_well:
-                # add ranking with all elements at position 0
-                rankings_departure = vstack((rankings_departure, zeros((1, dataset_to_consider.nb_elements))))
-            return rankings_departure
+        rankings_departure = bucket_ids[asarray(distinct_rankings_ids)]
+        if all_tied_as_well:
+            # add ranking with all elements at position 0
+            rankings_departure = vstack((rankings_departure, zeros((1, dataset.nb_elements))))
+        return rankings_departure
 
     def get_full_name(self) -> str:
         return "BioConsert"
